@@ -47,6 +47,7 @@ func runC06(c *core.Ctx) {
 	prog := c06SSA(k.g)
 	c.Analysed("c06_ssa_build_s", fmt.Sprintf("%.2f", time.Since(t0).Seconds()))
 	runC06Fresh(k, prog)
+	runC06Words(k, prog)
 	runC06Try(k, prog)
 	runC06Pred(k)
 }
